@@ -342,7 +342,7 @@ func (c11) Exec(c *core.Case) (out *core.Outcome) {
 		return inconclusive(c, "operation under test failed without faults: %d %s", res.Resp.Status, res.Resp.ErrCode())
 	}
 	// fault-free outcome must be the new state (sanity of the scenario's model)
-	if d := c11FinalCheck(x, &p, true, true); d != "" {
+	if d := c11FinalCheck(x, &p, true, true, 0); d != "" {
 		x.e.Close()
 		o.Violate("no-fault-mismatch", "C11/"+p.Scenario+"/no-fault/"+anomalyKind(d), "scenario %s without any fault: %s", p.Scenario, d)
 		core.Finish(o, x.e.S, x.e.Requests)
@@ -408,7 +408,7 @@ func (c11) Exec(c *core.Case) (out *core.Outcome) {
 			return inconclusive(c, "restart: %v", err)
 		}
 		acked := r2.Resp.OK()
-		d := c11FinalCheck(y, &p, acked, false)
+		d := c11FinalCheck(y, &p, acked, false, pt.step)
 		o.AddClass("%s|%s|%s", p.Scenario, cfgc, pt.desc)
 		core.Finish(o, y.e.S, y.e.Requests)
 		y.e.Close()
@@ -488,7 +488,7 @@ func c11Anomaly(d string) string {
 
 // c11FinalCheck evaluates the oracle through the API of the (restarted)
 // gateway. acked: the client received 2xx. Returns "" or "<anomaly>: detail".
-func c11FinalCheck(x *c11Ctx, p *c11Prog, acked bool, nofault bool) string {
+func c11FinalCheck(x *c11Ctx, p *c11Prog, acked bool, nofault bool, variant int) string {
 	cl := x.e.Root()
 	cl.GW = 0
 	sc := p.Scenario
@@ -625,6 +625,25 @@ func c11FinalCheck(x *c11Ctx, p *c11Prog, acked bool, nofault bool) string {
 		}
 	}
 	sort.Strings(listed)
+	// ... and a '/'-delimited listing shows no prefix that no listed key lies under (directories an
+	// interrupted upload created for a key that never came to exist)
+	ld := cl.Do(s3c.ListV2(x.bkt, KV{K: "delimiter", V: "/"}))
+	if !ld.Resp.OK() {
+		return fmt.Sprintf("listing-fails: ListObjectsV2 with delimiter -> %d %s", ld.Resp.Status, ld.Resp.ErrCode())
+	}
+	var ldr s3c.ListResult
+	xml.Unmarshal(ld.Resp.Body, &ldr)
+	for _, cp := range ldr.CommonPrefixes {
+		under := false
+		for _, k := range listed {
+			if strings.HasPrefix(k, cp.Prefix) {
+				under = true
+			}
+		}
+		if !under {
+			return fmt.Sprintf("phantom-prefix: the listing with delimiter '/' shows the common prefix %q although no key lies under it", cp.Prefix)
+		}
+	}
 	lu := cl.Do(s3c.ListUploads(x.bkt))
 	if !lu.Resp.OK() {
 		return fmt.Sprintf("listing-fails: ListMultipartUploads -> %d %s", lu.Resp.Status, lu.Resp.ErrCode())
@@ -641,6 +660,24 @@ func c11FinalCheck(x *c11Ctx, p *c11Prog, acked bool, nofault bool) string {
 		ab := cl.Do(s3c.AbortMPU(x.bkt, p.Key, x.uploadID))
 		if !ab.Resp.OK() {
 			return fmt.Sprintf("upload-unusable: abort of the surviving upload -> %d %s", ab.Resp.Status, ab.Resp.ErrCode())
+		}
+	}
+	// a bucket that holds no object, version or upload can be deleted as it is (every other crash
+	// point; the later operations on the key below would remove what an interrupted upload left)
+	if variant%2 == 1 && len(listed) == 0 && len(ups.Uploads) == 0 {
+		empty := true
+		if x.versioned {
+			lv := cl.Do(s3c.ListVersions(x.bkt))
+			if r, _ := s3c.ParseListVersions(lv.Resp.Body); r == nil || len(r.Ordered) > 0 {
+				empty = false
+			}
+		}
+		if empty {
+			db := cl.Do(s3c.DeleteBucket(x.bkt))
+			if !db.Resp.OK() {
+				return fmt.Sprintf("bucket-undeletable: DeleteBucket of a bucket without objects, versions and uploads -> %d %s", db.Resp.Status, db.Resp.ErrCode())
+			}
+			return ""
 		}
 	}
 	// later operations on the key succeed
